@@ -8,7 +8,8 @@ WARM = None
 RULE = (
     "metamorphic: (a) generated kernels as in C03 (register, flag, write-back and read-modify-write memory "
     "dependencies, both ISA flavours) x every rotation offset; (b) every shipped example/test kernel x shipped "
-    "models of its ISA x every rotation offset (quick: 3 offsets per kernel incl. 1 and n-1). Oracle: the set of "
+    "models of its ISA x every rotation offset (quick: 3 offsets per kernel incl. 1 and n-1; kernels of 50 and more "
+    "lines, which use the multi-process search, with offsets 1, 2, n-2, n-1 and one more). Oracle: the set of "
     "reported cycles mapped to instruction identities (position modulo rotation) with their latencies, and the "
     "LCD figure, are equal for all rotations. Non-trivial: the kernel has >=1 LCD whose members straddle the "
     "rotation point (some member before and some at/after it). Distinct = distinct (kernel, model, offset)."
@@ -121,10 +122,15 @@ def run_shard(spec):
         failures = {}
         for arch in spec["archs"]:
             for name, isa, lines in corpus.kernels():
-                if isa != env.isa_of(arch) or len(lines) >= 50:
+                if isa != env.isa_of(arch):
                     continue
                 n = len(lines)
-                if spec["tier"] == "thorough":
+                if n >= 50:
+                    # multi-process search (real threshold, real worker count): the ends of the body and one more
+                    offs = sorted({1, 2, n - 2, n - 1, 1 + (spec["seed"] * 7 + len(name)) % (n - 1)})
+                    if spec["tier"] != "thorough" and (len(name) + spec["seed"]) % 2:
+                        continue
+                elif spec["tier"] == "thorough":
                     offs = list(range(1, n))
                 else:
                     offs = sorted({1, n - 1, 1 + (spec["seed"] * 7 + len(name)) % (n - 1)}) if n > 1 else []
